@@ -213,3 +213,101 @@ def every_attribute_truncation(tier, seed):
 def _replay_attr_trunc(f):
     i = f['input']
     return decode_any(i['kind'], 2, bytes.fromhex(i['body'])) is None
+
+
+# ---------------------------------------------------------------------------------------------------------------------
+# every family the project has a recorded message for (the QA corpus: flow, flow-vpn, EVPN, VPLS, MVPN, MUP, SR-policy,
+# BGP-LS, labelled, VPN ...), on a session which negotiated all of them: every truncation of every message and sampled
+# byte mutations.  Decoding and rendering may refuse with a NOTIFICATION, nothing else, and must come back quickly.
+def _decode_render(typ, body):
+    from exabgp.bgp.message import Message
+    from . import c13
+
+    nb, neg = c13.session()
+    inp = {'type': typ, 'body': body.hex()}
+    t0 = time.perf_counter()
+    try:
+        m = Message.unpack(typ, memoryview(body), neg)
+    except Exception as e:  # noqa
+        if type(e).__name__ in ('Notify', 'Notification'):
+            return None
+        return {'what': f'decoder raised {type(e).__name__}: {str(e)[:160]}', 'input': inp}
+    try:
+        if typ == 2 and not getattr(m, 'IS_EOR', False):
+            d = m.data
+            for r in d.announces:
+                str(r.nlri), r.nlri.json(), r.nlri.index(), hash(r.nlri)
+            for n in d.withdraws:
+                str(n), n.json(), n.index(), hash(n)
+            str(d.attributes), d.attributes.json()
+        else:
+            str(m)
+            if hasattr(m, 'capabilities'):
+                str(m.capabilities)
+    except Exception as e:  # noqa
+        if type(e).__name__ in ('Notify', 'Notification'):
+            return {'what': f'a decoded message raises NOTIFICATION only when it is rendered ({str(e)[:100]}): the refusal belongs to the decoder', 'input': inp}
+        return {'what': f'rendering a decoded message raised {type(e).__name__}: {str(e)[:160]}', 'input': inp}
+    dt = time.perf_counter() - t0
+    if dt > 0.5 + len(body) * 0.0005:
+        return {'what': f'decoding {len(body)} bytes took {dt:.2f}s', 'input': inp}
+    return None
+
+
+def decode_render(typ, body, limit_s=5):
+    import signal
+
+    old = signal.signal(signal.SIGALRM, _alarm)
+    signal.setitimer(signal.ITIMER_REAL, limit_s)
+    try:
+        return _decode_render(typ, body)
+    except _Timeout:
+        return {'what': f'decoding {len(body)} bytes of message type {typ} did not finish within {limit_s} s (unbounded loop)', 'input': {'type': typ, 'body': body.hex()}}
+    finally:
+        signal.setitimer(signal.ITIMER_REAL, 0)
+        signal.signal(signal.SIGALRM, old)
+
+
+@bounded('C03', 'corpus-all-families')
+def corpus_all_families(tier, seed):
+    from . import c13
+
+    rnd = random.Random(seed)
+    fails, evals, kinds = [], 0, {}
+    msgs = c13.corpus()
+    if tier == 'quick':
+        # one message per source file in the quick tier (every family still present), all of them in thorough
+        seen, sub = set(), []
+        for t, b, s in msgs:
+            if s not in seen:
+                seen.add(s)
+                sub.append((t, b, s))
+        msgs = sub
+
+    def note(f, how, src):
+        key = f['what'][:70]
+        if key not in kinds:
+            kinds[key] = 0
+            f['how'] = f'{how} of {src}'
+            fails.append(f)
+        kinds[key] += 1
+
+    for t, body, src in msgs:
+        for cut in range(len(body)):
+            evals += 1
+            f = decode_render(t, body[:cut])
+            if f:
+                note(f, f'truncation at {cut}', src)
+        for _ in range(40 if tier == 'thorough' else 12):
+            evals += 1
+            f = decode_render(t, mutate(rnd, body))
+            if f:
+                note(f, 'mutation', src)
+    for f in fails:
+        f['what'] += f' ({kinds[f["what"][:70]]} inputs fail this way; first: {f["how"]})'
+    return {'evaluations': evals, 'distinct_nontrivial': evals, 'bound': f'{len(msgs)} messages of the QA corpus (all recorded families) on an all-families session: every truncation of each and {40 if tier == "thorough" else 12} structured mutations of each; decoded, every NLRI and the attributes rendered, indexed and hashed; one failure reported per distinct message', 'rule': 'one case = one byte string', 'samples': [{'source': msgs[0][2]}], 'failures': fails[:20]}
+
+
+@replayer('C03', 'corpus-all-families')
+def _replay_corpus(f):
+    return decode_render(f['input']['type'], bytes.fromhex(f['input']['body'])) is None
